@@ -289,6 +289,29 @@ func execC10(x *hysim.Run) {
 			x.Violate("response-rate-header", "server answered Hysteria-CC-RX %q, its configuration says %q", got, wantHdr)
 		}
 		x.Probe("raw-client-header")
+		// a repeated auth request on the authenticated connection (C01: neither revokes nor
+		// re-evaluates) must not re-negotiate the rate either: what was reported stays enforced
+		if !x.Violated() {
+			_, _, n1 := installed(true, rc.local)
+			h2 := http.Header{}
+			h2.Set("Hysteria-Auth", "whatever")
+			h2.Set("Hysteria-CC-RX", "123456")
+			resp2 := rc.do("POST", "hysteria", "/auth", h2, nil, 20*time.Second)
+			kind2, bps2, n2 := installed(true, rc.local)
+			nconnect := 0
+			for _, e := range w.events {
+				if e.kind == "connect" && e.addr == rc.local {
+					nconnect++
+				}
+			}
+			if resp2.err == nil {
+				if n2 != n1 || nconnect != 1 {
+					x.Violate("rate-renegotiated", "a second POST /auth (Hysteria-CC-RX: 123456) on the authenticated connection installed a controller again (%d -> %d installations, now %q %d bps; connect events %d) although the rate reported at connect time was %d", n1, n2, kind2, bps2, nconnect, connectTx)
+				} else {
+					x.Probe("repeat-auth-keeps-rate")
+				}
+			}
+		}
 		rc.close()
 	case 2: // real client <-> raw HTTP/3 server answering 233 with an arbitrary header
 		ep, err := w.fab.Listen("10.0.0.1", 443)
